@@ -671,7 +671,9 @@ def _absfloor(ctx, rid, select, what_fn):
                     while o.get("k") == "Call" and len(o.get("args", [])) == 1:
                         o = peel_refs(o["args"][0])
                 if o.get("k") == "Lit" and o.get("lk") in ("float", "int"):
-                    lits.append(o)
+                    from .facts import lit_float
+                    if lit_float(o.get("v")) not in (0.0, None):      # `x.max(0.)` only removes a negative rounding residue
+                        lits.append(o)
             if not lits or not any(a.get("k") == "Closure" for a in anc):
                 continue
             # which arm of the method dispatcher
